@@ -477,3 +477,16 @@ proof fn bg_merge_turn(b0: BgLog, b: BgLog, always: bool, asked: bool)
 proof fn bg_sync_sleep(b0: BgLog, b: BgLog, d: int)
     requires b.ticks == b0.ticks + 1 && b.blocking_calls == b0.blocking_calls && b.last_sleep_ms == d,   //@[C18.sync_task.sleeps_the_configured_interval]
 {}
+// ---- C13: which files a merge must / may select, as the configuration says
+/// reasons that make a file eligible whatever its size
+spec fn threshold_hit(st: LogStatistics, t: MergeThresholds) -> bool {
+    st.dead_bytes > t.dead_bytes || f64_gt(log::spec_fragmentation(st), t.fragmentation)
+}
+/// the selection is exactly what the thresholds say: a file with statistics is selected if it has too many dead bytes, is too
+/// fragmented or is smaller than small_file (for a file with a partial record at its end the size on disk is what counts, which is
+/// at least the logical size), and only then
+spec fn selection_ok(sel: Set<u64>, stats: Map<u64, LogStatistics>, w: &World, t: MergeThresholds) -> bool {
+    forall |id: u64| #[trigger] stats.contains_key(id) ==> w.data.contains_key(id)
+        && ((threshold_hit(stats[id], t) || (w.data[id].size < t.small_file && !w.data[id].torn)) ==> sel.contains(id))
+        && (sel.contains(id) ==> (threshold_hit(stats[id], t) || w.data[id].size < t.small_file))
+}
